@@ -235,6 +235,8 @@ func (ctx *Context) GetCurSeed() ([]byte, error) {
 		return ctx.RandSrc.MarshalBinary()
 	}
 	verifShared("randSource", false)
+	randSourceMu.Lock()
+	defer randSourceMu.Unlock()
 	return randSource.MarshalBinary()
 }
 
